@@ -5,6 +5,7 @@ choice comes from one PRNG seeded by (seed, shard); the trace is also a history 
 import argparse
 import random
 import subprocess
+import threading
 import sys
 from fractions import Fraction
 
@@ -17,8 +18,10 @@ RATES = ["0", "0.003", "0.01", "0.1", "0.5", "0.25", "0.0005", "1", "0.999", "1.
          "0.0954045954045954045954045954", "0.00000000000000000001", "-0.01", "0.3333333333333333333333333333",
          "2.5e-3", "1E-2", "1e0", ".01", "0.01_", " 0.02", "0.02 ", "\t0.01", "0.0 1",
          "0.4999999999999999999", "0.04999999999999999999", "0.000833333333333333333", "0.0100000000000000004",
-         "0.000000000025"]
-RATE_W = [3, 6, 6, 6, 4, 3, 3, 1, 1, 1, 4, 3, 1, 1, 1, 1, 1, 1, 0.5, 0.5, 0.5, 0.7, 0.7, 0.4, 0.3, 1.2, 0.8, 0.8, 0.8, 0.5]
+         "0.000000000025", "0.4999999999999999999999999999", "0.0100000000000000000000000049",
+         "0.0099999999999999999999999951"]
+RATE_W = [3, 6, 6, 6, 4, 3, 3, 1, 1, 1, 4, 3, 1, 1, 1, 1, 1, 1, 0.5, 0.5, 0.5, 0.7, 0.7, 0.4, 0.3, 1.2, 0.8, 0.8, 0.8, 0.5,
+          0.6, 0.5, 0.4]
 
 
 def parse_dec(s):
@@ -83,9 +86,15 @@ class Impl:
             lines.append(l)
 
     def send(self, line):
-        self.p.stdin.write(line + "\n")
-        self.p.stdin.flush()
-        return self._read()
+        # a request the contract never answers (a loop introduced by a change) must not stall the whole check
+        t = threading.Timer(120, self.p.kill)
+        t.start()
+        try:
+            self.p.stdin.write(line + "\n")
+            self.p.stdin.flush()
+            return self._read()
+        finally:
+            t.cancel()
 
     def close(self):
         self.p.stdin.close()
@@ -136,6 +145,12 @@ class World:
     def restricted(self, d):
         return (self.markers.get(d) or "").startswith("R")
 
+    def by_pull(self, d):
+        """how a sender funds an escrow of d: by a pull transfer exactly when d is a restricted marker -- and now and
+        then the other way round (exact funds attached for a restricted marker, none for an ordinary coin)"""
+        r = self.restricted(d)
+        return (not r) if self.rng.random() < 0.06 else r
+
     def env_line(self):
         ms = lst(sorted(self.markers.items()), lambda kv: enc(kv[0]) + "=" + kv[1])
         ats = lst(sorted((a, n) for a, n in self.attrs.items() if n),
@@ -181,11 +196,30 @@ class World:
             quotes = quotes + ["base"]                      # the base denomination also accepted as a quote
         if conv and rng.random() < 0.04:
             quotes = quotes + [rng.choice(conv)]            # a convertible denomination also accepted as a quote
-        for d in ["base"] + conv + quotes + ["zz"]:
-            m = rng.choice(["R", "U", None, None])
+        shaped = []
+        if rng.random() < 0.08:
+            # denominations spelled like vouchers of other modules; the marker table alone says what they are
+            hx = "".join(rng.choice("0123456789ABCDEF") for _ in range(64))
+            shaped = [rng.choice(["ibc/" + hx, "ibc/" + hx.lower(), "ibc/" + hx[:63], "factory/alice/sub", "gamm/pool/1"])]
+            if rng.random() < 0.7:
+                quotes = quotes + shaped
+            else:
+                conv = conv + shaped
+        if rng.random() < 0.05:
+            # the same denomination twice in one list, adjacent or apart
+            which = rng.choice(["q", "c"]) if conv else "q"
+            l_ = quotes if which == "q" else conv
+            x_ = rng.choice(l_)
+            l_ = (l_[:l_.index(x_) + 1] + [x_] + l_[l_.index(x_) + 1:]) if rng.random() < 0.6 else (l_ + [x_])
+            if which == "q":
+                quotes = l_
+            else:
+                conv = l_
+        for d in dict.fromkeys(["base"] + conv + quotes + ["zz"]):
+            m = rng.choice(["R", "U", None, None]) if d not in shaped else rng.choice(["R", "R", "U", "Z", None])
             if m and rng.random() < 0.15:
                 # same marker type, other fields (required attributes, life-cycle status): the contract looks at the type only
-                m = rng.choice(["Ra", "Rp", "Rc", "Rd"] if m == "R" else ["Ua", "Ud", "E"])
+                m = rng.choice(["Ra", "Rp", "Rc", "Rd", "Rx", "Rx"] if m == "R" else ["Ua", "Ud", "E", "Z", "T"])
             if m:
                 self.markers[d] = m
         execs = rng.sample(self.accounts, rng.randint(1, 2))
@@ -286,7 +320,7 @@ class World:
         return self.maybe_reuse_id(
             dict(kind="create_ask", sender=rng.choice(self.accounts), id=nid, base=base,
                  quote=rng.choice(c.quotes), price=price_str(self.units(), c.precision, rng), size=size,
-                 funds=[] if self.restricted(base) else [(size, base)]), "ask")
+                 funds=[] if self.by_pull(base) else [(size, base)]), "ask")
 
     def r_create_bid(self):
         c, rng = self.cfg, self.rng
@@ -318,13 +352,18 @@ class World:
         return self.maybe_reuse_id(
             dict(kind="create_bid", sender=rng.choice(self.accounts), id=nid, base=c.base,
                  fee=fee, price=price_str(u, c.precision, rng), quote=quote, quote_size=total, size=size,
-                 funds=[] if self.restricted(quote) else [(due, quote)]), "bid")
+                 funds=[] if self.by_pull(quote) else [(due, quote)]), "bid")
 
     def maybe_reuse_id(self, r, side):
         """an otherwise valid creation under the id of an order already open on the same side"""
         book = self.asks if side == "ask" else self.bids
         if book and self.rng.random() < 0.05:
             r["id"] = self.rng.choice(list(book))
+        # the canonical spelling of a uuid that is already on the book under a legacy spelling (two live keys, one uuid)
+        legacy = [k for k in list(self.asks) + list(self.bids) if len(k) == 32 and all(ch in "0123456789abcdefABCDEF" for ch in k)]
+        if legacy and self.rng.random() < 0.15:
+            h = self.rng.choice(legacy).lower()
+            r["id"] = "%s-%s-%s-%s-%s" % (h[:8], h[8:12], h[12:16], h[16:20], h[20:])
         return r
 
     def r_approve(self):
@@ -343,7 +382,7 @@ class World:
             # an approval that is consistent in itself (funds = its own size) but not with the ask's size
             size = max(1, rng.choice([a.size // 2, a.size * 2, a.size + c.increment, a.size - c.increment, a.size + 1]))
         return dict(kind="approve_ask", sender=sender, id=a.key, base=c.base, size=size,
-                    funds=[] if self.restricted(c.base) else [(size, c.base)])
+                    funds=[] if self.by_pull(c.base) else [(size, c.base)])
 
     def r_match(self):
         c, rng = self.cfg, self.rng
@@ -364,7 +403,10 @@ class World:
             a, b = rng.choice(asks), rng.choice(bids)
         m = max(0, min(a.size, b.rem_base))      # ill-formed seeded logs can leave a negative remainder
         r = rng.random()
-        if r < 0.55 or m <= 1:
+        ts = self.tie_size(b, m) if rng.random() < 0.15 else None
+        if ts:
+            size = ts
+        elif r < 0.55 or m <= 1:
             size = m
         elif r < 0.8:
             k = m // c.increment
@@ -389,7 +431,7 @@ class World:
             pv = parse_dec(price)
             if pv is not None and pv > 0:
                 price = price_str(int(pv * 10 ** c.precision), c.precision, rng) if (pv * 10 ** c.precision).denominator == 1 else price
-        if rng.random() < 0.07:
+        if rng.random() < 0.10:
             # an execution price a hair away from a limit price, with more decimals than the precision allows, and a
             # size on which that price still gives a whole total
             pv = parse_dec(price)
@@ -402,6 +444,8 @@ class World:
                     price = price_str(units, scale, rng)
                     g = 10 ** scale
                     size = g * rng.randint(1, max(1, m // g)) if m >= g else size
+                    if m >= g and m % g == 0 and rng.random() < 0.5:
+                        size = m            # ... closing the smaller order at that price
         if rng.random() < 0.04 and parse_dec(price) is not None:
             # the limit price written with 30 decimals whose last digits the parser rounds away
             w_, _, f_ = price.lstrip("+").partition(".")
@@ -428,7 +472,10 @@ class World:
             return dict(kind="expire_" + side, sender=sender, id=o.key, funds=[])
         r = rng.random()
         k = rem // c.increment
-        if r < 0.15:
+        ts = self.tie_size(o) if side == "bid" and rng.random() < 0.3 else None
+        if ts:
+            size = ts
+        elif r < 0.15:
             size = None
         elif r < 0.75 and k >= 1:
             size = c.increment * rng.randint(1, k)
@@ -441,6 +488,32 @@ class World:
         else:
             size = rem + c.increment
         return dict(kind="reject_" + side, sender=sender, id=o.key, size=size, funds=[])
+
+    def tie_size(self, o, cap=None):
+        """a size (multiple of the increment, below the remainder) after which the pro-rata share of the bid's fee
+        is exactly k + 1/2: the midpoint rule decides, and the quotient fee*rest/quote is mostly a repeating decimal"""
+        c = self.cfg
+        try:
+            if not (isinstance(o, fmt.Bid) and o.fee and o.quote_amt > 0):
+                return None
+            pv = parse_dec(o.price)
+            k = min(o.rem_base if cap is None else min(cap, o.rem_base), 400 * c.increment) // c.increment
+            js = list(range(1, k))
+            self.rng.shuffle(js)
+            found = []
+            for j in js[:200]:
+                rest = o.rem_quote - pv * (c.increment * j)
+                if rest.denominator == 1 and rest > 0 and (2 * o.fee[0] * int(rest)) % (2 * o.quote_amt) == o.quote_amt:
+                    found.append((c.increment * j, (o.fee[0] * int(rest)) // o.quote_amt))
+            # shares of 7 1/2, 7922 1/2, ...: just below them the 96-bit mantissa is full
+            special = [x for x in found if x[1] in (7, 79, 792, 7922, 79228, 792281)]
+            if special:
+                return self.rng.choice(special)[0]
+            if found:
+                return found[0][0]
+        except Exception:
+            pass
+        return None
 
     # ------------------------------------------------------------------ repeated partial operations on one order
     def pick_focus(self):
@@ -516,6 +589,12 @@ class World:
             ap = keep + [rng.choice(keep) for _ in range(len(c.approvers) - len(keep) + rng.randint(0, 1))]
         if ex is not None and len(c.executors) > 1 and rng.random() < 0.15:
             ex = [c.executors[0]] * len(c.executors)
+        if rng.random() < 0.04 and len(c.approvers) >= 2:
+            # one name that spells the whole stored list, or two neighbours of it, joined by a comma
+            j = rng.randint(0, len(c.approvers) - 2)
+            ap = rng.choice([[",".join(c.approvers)], c.approvers[:j] + [c.approvers[j] + "," + c.approvers[j + 1]] + c.approvers[j + 2:]])
+        if rng.random() < 0.03 and len(c.executors) >= 2:
+            ex = [",".join(c.executors)]
 
         def pair(cur):
             r = rng.random()
@@ -644,7 +723,7 @@ class World:
         kind = rng.choices([k for k, _ in w], [x for _, x in w])[0]
         if kind == "env":
             d = rng.choice(list(self.markers.keys()) + ["base", "qa", "cva"])
-            m = rng.choice(["R", "U", None, "Ra", "Rc", "Rp", "Ua", "E"])
+            m = rng.choice(["R", "U", None, "Ra", "Rc", "Rp", "Ua", "E", "Rx", "Rx", "Z", "T"])
             if m:
                 self.markers[d] = m
             else:
@@ -666,14 +745,21 @@ class World:
         if self.last_create is not None and rng.random() < 0.03:
             self.send("EXEC " + self.last_create)          # the very same creation again, funds included
             return
-        if rng.random() < 0.006:
+        if rng.random() < (0.006 if not any(a.cls[0] == "ready" for a in self.asks.values()) else 0.015):
             # a migration in the middle of an ordinary history (the approver list rewritten without looking at the book)
             ap = rng.choice([None, [], rng.sample(self.accounts, rng.randint(1, 2)), list(self.cfg.approvers[1:])])
             self.send("MIGRATE %s - - - - - -" % optlist(ap))
             return
         r = None
         focused = False
-        if self.focus_left > 0:
+        orphan = [a for a in self.asks.values() if a.cls[0] == "ready" and a.cls[1] not in self.cfg.approvers]
+        if orphan and self.cfg.approvers and rng.random() < 0.3:
+            # an approved ask whose approver a migration has dropped from the list: a flawless second approval by a current one
+            a = rng.choice(orphan)
+            r = dict(kind="approve_ask", sender=rng.choice(self.cfg.approvers), id=a.key, base=self.cfg.base, size=a.size,
+                     funds=[] if self.restricted(self.cfg.base) else [(a.size, self.cfg.base)])
+            focused = True
+        elif self.focus_left > 0:
             self.focus_left -= 1
             if rng.random() < 0.8:
                 r = self.r_focus()
@@ -770,11 +856,19 @@ def migration_history(w, hn):
             ["pending", "ready:%s:base:%d" % (enc(w.accounts[0]), size),
              # a book carried over from a release that left the approver amount stale after a partial reject
              "ready:%s:base:%d" % (enc(w.accounts[0]), size + inc * rng.randint(1, 3))])
-        w.send("SEEDASK %s %s %s %s %s qa %s %d" % (enc(i), enc(i), enc(rng.choice(w.accounts)), cls, base,
+        idf = i
+        if rng.random() < 0.04:
+            idf = rng.choice([i.replace("-", ""), i.upper(), new_uuid(rng)] + (w.ids[-2:] if w.ids else []))
+        w.send("SEEDASK %s %s %s %s %s qa %s %d" % (enc(i), enc(idf), enc(rng.choice(w.accounts)), cls, base,
                                                      enc(price_str(rng.choice([2, 5, 10]), p, rng)), size))
         w.ids.append(i)
-    for _ in range(rng.randint(1, 4) if rng.random() > 0.03 else rng.randint(105, 140)):
+    nbids = rng.randint(1, 4) if rng.random() > 0.03 else rng.randint(105, 140)
+    run_of_current = nbids > 100 and rng.random() < 0.5
+    for bn in range(nbids):
         i = legacy_id()
+        if run_of_current:
+            # keys in ascending order: over a hundred current-format bids, then old-format ones behind them
+            i = "%08x-0000-4000-8000-%012x" % (bn + 1, rng.getrandbits(48))
         lots = rng.randint(2, 8)
         size = inc * lots
         u = rng.choice([2, 5, 10, 25])
@@ -783,8 +877,18 @@ def migration_history(w, hn):
         fee = "%d:qa" % feeamt if feeamt else "-"
         owner = rng.choice(w.accounts)
         price = price_str(u, p, rng)
+        finer = rng.random() < 0.06
+        if finer:
+            # a readable price with one decimal more than the precision (books older than the precision setting)
+            lots += lots % 2
+            size = inc * lots
+            price = price_str(10 * u + 5, p + 1, rng)
+            total = (10 * u + 5) * size // 10 ** (p + 1)
+            feeamt = rhu(Fraction(rate) * total) if feeamt else 0
+            fee = "%d:qa" % feeamt if feeamt else "-"
         # a well-formed log: fills/rejects at the bid price, in whole lots, with pro-rata fees
-        done = rng.randint(0, lots - 1)
+        done = rng.randint(0, lots - 1) if not finer else 0
+        unrefunded = rng.random() < 0.08
         evs, sb, sq, sf = [], 0, 0, 0
         left = done
         while left > 0:
@@ -792,6 +896,8 @@ def migration_history(w, hn):
             left -= k
             b_ = inc * k
             q_ = u * b_ // 10 ** p
+            if unrefunded and u > 1:
+                q_ = (u - 1) * b_ // 10 ** p          # filled below the limit price, the refund never logged
             keep = rhu(Fraction(feeamt) * Fraction(total - sq - q_, total)) if feeamt else 0
             f_ = (feeamt - sf) - keep
             ff = str(f_) if (feeamt and (f_ > 0 or rng.random() < 0.3)) else "-"
@@ -801,13 +907,17 @@ def migration_history(w, hn):
             evs.append("R:%d:-" % 0)
         if rng.random() < 0.12:   # ill-formed logs: sums beyond the order or overflowing
             evs.append(rng.choice(["F:%d:%d:-" % (size, total), "J:%d:1:5" % (2 ** 128 - 1), "R:%d:7" % (2 ** 127)]))
-        if rng.random() < 0.7:
+        idf = i
+        if rng.random() < 0.04:
+            # a record whose id field is not its key: another spelling of it, a fresh id, or the key of another order
+            idf = rng.choice([i.replace("-", ""), i.upper(), new_uuid(rng)] + (w.ids[-2:] if w.ids else []))
+        if (rng.random() < 0.7) if not run_of_current else (bn >= nbids - rng.randint(1, 3) - (0 if rng.random() < 0.7 else 50)):
             w.send("SEEDBID2 %s %s %s %s %d qa %d %s %s %s" % (
-                enc(i), enc(i), enc(owner), "base" if rng.random() < 0.9 else rng.choice(["cva", "oldbase"]), size, total, fee,
+                enc(i), enc(idf), enc(owner), "base" if rng.random() < 0.9 else rng.choice(["cva", "oldbase"]), size, total, fee,
                 enc(price), ";".join(evs) if evs else "[]"))
         else:
             w.send("SEEDBID3 %s %s %s base %d %d qa %d %d %s %d %s" % (
-                enc(i), enc(i), enc(owner), size, sb, total, sq, fee, sf, enc(price)))
+                enc(i), enc(idf), enc(owner), size, sb, total, sq, fee, sf, enc(price)))
         w.ids.append(i)
 
     def migline():
@@ -830,6 +940,20 @@ def migration_history(w, hn):
         bat = maybe(lambda: rng.choice([[], ["buy"]]), 0.2)
         return "%s %s %s %s %s %s %s" % (optlist(ap), opt(afr), opt(afa), opt(bfr), opt(bfa), optlist(aat),
                                          optlist(bat))
+    if w.cfg is not None and rng.random() < 0.25:
+        for _ in range(rng.randint(1, 4)):
+            v2keys = [k for k, x in w.bids.items() if not isinstance(x, fmt.Bid)]
+            if v2keys and rng.random() < 0.5:
+                try:
+                    r = w.r_create_bid()
+                    k_ = rng.choice(v2keys)
+                    h_ = k_.lower()
+                    r["id"] = k_ if rng.random() < 0.6 or len(k_) != 32 else "%s-%s-%s-%s-%s" % (h_[:8], h_[8:12], h_[12:16], h_[16:20], h_[20:])
+                    w.send("EXEC " + w.render(r))
+                except (ValueError, IndexError, KeyError, TypeError, AttributeError):
+                    pass
+            else:
+                safe_step(w, stats=w.stats)
     ml = migline()
     b = w.send("MIGRATE " + ml)
     if b.ok:
